@@ -394,6 +394,9 @@ mod item;
 mod test;
 mod trait_;
 mod util;
+#[cfg(all(test, derive_where_verif))]
+#[allow(missing_docs, clippy::missing_docs_in_private_items)]
+mod verif_hook;
 
 use std::{borrow::Cow, iter};
 
